@@ -23,6 +23,14 @@ Released == {
   <<"xcrypt", "XCRYPT_2.0", FALSE>>, <<"xcrypt_r", "XCRYPT_2.0", FALSE>>,
   <<"xcrypt_gensalt", "XCRYPT_2.0", FALSE>>, <<"xcrypt_gensalt_r", "XCRYPT_2.0", FALSE>> }
 
+\* With --enable-obsolete-api=yes (COMPAT_ABI = yes, as this tree is configured) libxcrypt 4.x additionally exports
+\* the bindings of the Openwall / ALT / SUSE libcrypts (lib/libcrypt.map.in of the 4.4 series; versions below the
+\* platform floor GLIBC_2.2.5 are raised to it).  The distribution's libcrypt.so.1 is built with =glibc and lacks them.
+ReleasedCompatAll == {
+  <<"crypt_rn", "GLIBC_2.2.5", FALSE>>, <<"crypt_ra", "GLIBC_2.2.5", FALSE>>,
+  <<"crypt_gensalt", "GLIBC_2.2.5", FALSE>>, <<"crypt_gensalt_rn", "GLIBC_2.2.5", FALSE>>, <<"crypt_gensalt_ra", "GLIBC_2.2.5", FALSE>>,
+  <<"crypt_gensalt", "OW_CRYPT_1.0", FALSE>>, <<"crypt_gensalt_rn", "OW_CRYPT_1.0", FALSE>>, <<"crypt_gensalt_ra", "OW_CRYPT_1.0", FALSE>> }
+
 \* compatibility symbols are the same function as their modern counterpart
 AliasClasses == { {"crypt", "fcrypt", "xcrypt"}, {"crypt_r", "xcrypt_r"},
                   {"crypt_gensalt_rn", "crypt_gensalt_r", "xcrypt_gensalt_r"}, {"crypt_gensalt", "xcrypt_gensalt"} }
@@ -39,7 +47,10 @@ F == JsonDeserialize(IOEnv.XCV_FACTS)
 Exported == {<<F.exports[i].sym, F.exports[i].ver, F.exports[i].def = 1>> : i \in 1..Len(F.exports)}
 AddrOf(sym) == {F.exports[i].addr : i \in {j \in 1..Len(F.exports) : F.exports[j].sym = sym}}
 
-MissingSymbols == Released \ Exported
+ReleasedHere == Released \cup (IF "compat_abi" \in DOMAIN F /\ F.compat_abi = "yes" THEN ReleasedCompatAll ELSE {})
+MissingSymbols == ReleasedHere \ Exported
+\* every version of one symbol is the same function (an old binding must behave as the current one)
+VersionsDiffer == {s \in {x[1] : x \in ReleasedHere} : Cardinality(AddrOf(s)) > 1}
 AliasBroken == {c \in AliasClasses : Cardinality(UNION {AddrOf(s) : s \in c}) # 1}
 LayoutDiff == {k \in DOMAIN Layout : ~(k \in DOMAIN F.layout /\ F.layout[k] = Layout[k])}
 ConstDiff == {k \in DOMAIN Constants : ~(k \in DOMAIN F.constants /\ F.constants[k] = Constants[k])}
@@ -50,6 +61,6 @@ Next == done' = TRUE
 Spec == Init /\ [][Next]_done
 Finish == done = FALSE \/
   JsonSerialize(IOEnv.XCV_VERDICT,
-     [missing |-> {<<x[1], x[2]>> : x \in MissingSymbols}, alias |-> AliasBroken, layout |-> LayoutDiff, constants |-> ConstDiff,
-      exported |-> Cardinality(Exported), released |-> Cardinality(Released)])
+     [missing |-> {<<x[1], x[2]>> : x \in MissingSymbols}, alias |-> AliasBroken \cup {{s} : s \in VersionsDiffer}, layout |-> LayoutDiff, constants |-> ConstDiff,
+      exported |-> Cardinality(Exported), released |-> Cardinality(ReleasedHere)])
 =============================================================================
